@@ -283,7 +283,25 @@ def _scn_bytes(prod, mps):
     return script
 
 
-DIRECTED = [_scn_enum, _scn_stall_nodata, _scn_stall_outdata, _scn_bytes]
+def _scn_backpressure(prod, mps):
+    """the rx stream's consumer stalls while the host keeps writing: packets that no longer fit must be NAKed (and retried later), never
+    ACKed and dropped"""
+    async def script(h):
+        h.out_ready_p = 0.0
+        await h.idle(3)
+        pid = PID_DATA0
+        for k in range(3):
+            r = await h.out_txn(4, [(17 * k + j) & 0xff for j in range(mps)], data_pid=pid)
+            if r == ('hs', PID_ACK):
+                pid ^= 0x8
+        h.out_ready_p = 1.0
+        await h.idle(3 * mps)
+        r = await h.out_txn(4, [0xEE], data_pid=pid)
+        await h.idle(3 * mps)
+    return script
+
+
+DIRECTED = [_scn_enum, _scn_stall_nodata, _scn_stall_outdata, _scn_bytes, _scn_backpressure]
 
 
 def serial_traces(t, rng, tier):
